@@ -123,13 +123,13 @@ func (masqHandler) ServeHTTP(w http.ResponseWriter, r *http.Request) {
 }
 
 type c01Conn struct {
-	rc          *rawConn
-	idx         int
-	authShaped  int      // POST hysteria /auth requests sent
-	credsSent   []string // credentials of those
-	dialErr     error
-	replyBytes  int // bytes read on proxy streams
-	tcpOK       int
+	rc         *rawConn
+	idx        int
+	authShaped int      // POST hysteria /auth requests sent
+	credsSent  []string // credentials of those
+	dialErr    error
+	replyBytes int // bytes read on proxy streams
+	tcpOK      int
 }
 
 type c01World struct {
@@ -141,7 +141,7 @@ type c01World struct {
 	clean   bool
 	pending int
 	done    chan struct{}
-	retired []*rawConn // connections replaced by a redial (already closed)
+	retired []*rawConn     // connections replaced by a redial (already closed)
 	opLocal map[int]string // op index -> source address of the connection the op was issued on
 }
 
